@@ -33,3 +33,4 @@ import EtVerif.Props.TrC10
 #print axioms EtVerif.TrC10.dim
 #print axioms EtVerif.TrC10.nnz
 #print axioms EtVerif.TrC10.setMinorDim
+#print axioms EtVerif.TrC10.transpose_refines
